@@ -84,12 +84,14 @@ variable [DecidableEq κ]
 /-- the measurement "always answer `j`" -/
 def constPovm (j : κ) : κ → Matrix ι ι ℂ := fun i => if i = j then 1 else 0
 
+omit [Fintype ι] [Fintype κ] in
 theorem constPovm_psd (j i : κ) : (constPovm (ι := ι) j i).PosSemidef := by
   unfold constPovm
   split
   · exact Matrix.PosSemidef.one
   · exact Matrix.PosSemidef.zero
 
+omit [Fintype ι] in
 theorem constPovm_sum (j : κ) : ∑ i, constPovm (ι := ι) j i = 1 := by
   unfold constPovm
   rw [Finset.sum_ite_eq' Finset.univ j]
@@ -111,9 +113,11 @@ omit [DecidableEq κ]
 
 /-! ### Unitary conjugation -/
 
+omit [DecidableEq ι] in
 theorem conj_psd (U A : Matrix ι ι ℂ) (hA : A.PosSemidef) : (U * A * Uᴴ).PosSemidef :=
   hA.mul_mul_conjTranspose_same U
 
+omit [DecidableEq ι] in
 theorem conj_sum (U : Matrix ι ι ℂ) (M : κ → Matrix ι ι ℂ) :
     ∑ i, U * M i * Uᴴ = U * (∑ i, M i) * Uᴴ := by
   rw [Matrix.mul_sum, Matrix.sum_mul]
@@ -147,8 +151,7 @@ theorem unamb_excl_weak_duality_gen (σ : κ → Matrix ι ι ℂ) (M : κ → M
   have h3 : 0 ≤ ∑ i, ((N + (a i : ℂ) • σ i - ∑ j, σ j) * M i).trace.re :=
     Finset.sum_nonneg fun i _ => h1 i
   simp only [Matrix.sub_mul, Matrix.add_mul, Matrix.trace_sub, Matrix.trace_add, Complex.sub_re,
-    Complex.add_re, Finset.sum_sub_distrib, Finset.sum_add_distrib, re_trace_smul_mul, hzero,
-    mul_zero, Finset.sum_const_zero, add_zero] at h3
+    Complex.add_re, Finset.sum_sub_distrib, re_trace_smul_mul, hzero, mul_zero, add_zero] at h3
   have h4 : ∑ i, (N * M i).trace.re = (N * ∑ i, M i).trace.re := by
     rw [Matrix.mul_sum, Matrix.trace_sum, Complex.re_sum]
   have h5 : ∑ i, ((∑ j, σ j) * M i).trace.re = ((∑ j, σ j) * ∑ i, M i).trace.re := by
